@@ -417,6 +417,13 @@ theorem stack_closed_output_is_cdns_file (pv : Val) (blockOf : List Nat → Val)
     simp only [fileBytes, List.map_map, hdr, enc, List.append_assoc]
     rfl
 
+/-- **A closed output receives no further bytes.**  Whatever the application goes on to do, the outputs closed so far stay exactly
+    as they were (content accepted by the OS included): later calls only append further closed outputs. -/
+theorem stack_closed_outputs_final (ops later : List Op) :
+    ∃ ext, (run hdr enc St.init (ops ++ later)).1.closed = (run hdr enc St.init ops).1.closed ++ ext := by
+  rw [run_append]
+  exact run_closed_prefix hdr enc later _
+
 /-- the hypotheses of `stack_recovery` are met by a real history: a block whose flush the OS rejects -/
 example : let s := (run [1, 2] (fun rs => rs) St.init [.buffer 7, .writeBlock [] [(1, some .fail)]]).1
     s.w.failed = true ∧ s.cur = [7] ∧ s.threw = true := by decide
